@@ -1,6 +1,7 @@
 package rules
 
 import (
+	"go/constant"
 	"fmt"
 	"go/token"
 	"go/types"
@@ -320,15 +321,28 @@ func advancedUnlessError(e ssa.Value, header *ssa.Phi, high ssa.Value, l *core.L
 			if !isPhi {
 				break
 			}
-			if ep == m || !isFreshError(ep.Edges[i]) {
+			if ep == m {
+				continue
+			}
+			// the failure indicator carried beside the position: a fresh error, or a bool constant
+			isErr := isFreshError(ep.Edges[i])
+			bc, isBool := ep.Edges[i].(*ssa.Const)
+			if isBool && (bc.Value == nil || bc.Value.Kind() != constant.Bool) {
+				isBool = false
+			}
+			if !isErr && !isBool {
 				continue
 			}
 			all := len(l.Latch) > 0
 			for _, la := range l.Latch {
 				known := false
 				for _, g := range core.Guards(la) {
-					if rel, ok := core.AsRel(g); ok && rel.Op == token.EQL && rel.X == ssa.Value(ep) && core.IsNilConst(rel.Y) {
-						known = true
+					if isErr {
+						if rel, ok := core.AsRel(g); ok && rel.Op == token.EQL && rel.X == ssa.Value(ep) && core.IsNilConst(rel.Y) {
+							known = true
+						}
+					} else if g.Cond == ssa.Value(ep) && g.Pos == !constant.BoolVal(bc.Value) {
+						known = true // the flag is known to have the other value when the loop goes round
 					}
 				}
 				if !known {
